@@ -107,7 +107,8 @@ def site_of(log):
     m = re.search(r"ERROR: AddressSanitizer: (\S+)", log)
     if m:
         fr = re.findall(r"#\d+ 0x[0-9a-f]+ in (\w+) ([^\s]+)", log)
-        fn = next((f for f, p in fr if "/repo/" in p or "Source/" in p), fr[0][0] if fr else "?")
+        # first frame inside the library that is not a generic copy/set helper
+        fn = next((f for f, p in fr if ("/repo" in p or "Source/" in p) and not re.search(r"memcpy|memset|memmove", f)), fr[0][0] if fr else "?")
         return fn, "asan", m.group(1)
     return None, None, None
 
